@@ -72,6 +72,25 @@ macro_rules! fs_body {
         same(&fs);
         let c = fs.clone();
         same(&c);
+        // clone_from into destinations that are shorter, as long and longer than the source (the source may be empty)
+        crate::section("VF:flatstack.clone_from");
+        for d in [0usize, 1, 2, 4, 6] {
+            let mut dest = <FlatStack<$R, $S>>::default();
+            for i in 0..d {
+                dest.copy(ITEMS[(i + 1) % 4]);
+            }
+            dest.clone_from(&fs);
+            vassert!(dest.len() == want.len() && dest.is_empty() == want.is_empty(), "VF:flatstack.clone_from.len");
+            for (i, w) in want.as_slice().iter().enumerate() {
+                vassert!(eq(dest.get(i), *w), "VF:flatstack.clone_from.get");
+            }
+            vassert!(dest.iter().count() == want.len(), "VF:flatstack.clone_from.iter_count");
+            let mut a = fs.clone();
+            a.copy(ITEMS[2]);
+            dest.copy(ITEMS[2]);
+            vassert!(a.len() == dest.len() && eq(dest.get(dest.len() - 1), ITEMS[2]) && eq(a.get(a.len() - 1), ITEMS[2]), "VF:flatstack.clone_from.continues_differently_from_clone");
+        }
+        crate::section("");
         // fail-stop probe
         let probe = v[7] as usize;
         if probe >= want.len() {
@@ -264,10 +283,10 @@ fn run_dense(v: &[u64]) {
 // ---------------------------------------------------------------------------------------------------- C14 IntoOwned laws
 // args: kind (0 slice, 1 columns, 2 option, 3 result, 4 nested slice), x (value selector), t (prior target selector), rep (0 region-backed, 1 owned-borrowed)
 fn pre_io(v: &[u64]) -> bool {
-    v[0] < 6 && v[1] < 4 && v[2] < 5 && v[3] < 2
+    v[0] < 7 && v[1] < 4 && v[2] < 5 && v[3] < 2
 }
 fn doms_io() -> Vec<Vec<u64>> {
-    vec![range(6), range(4), range(5), range(2)]
+    vec![range(7), range(4), range(5), range(2)]
 }
 fn run_io(v: &[u64]) {
     let x = ITEMS[v[1] as usize];
@@ -301,6 +320,24 @@ fn run_io(v: &[u64]) {
             let jc = r2c.push(x);
             let jc2 = r2c.push(x);
             vassert!(j == jc && j2 == jc2, "VF:intoowned.slice.region_to_region_index");
+        }
+        6 => {
+            // the owned-borrowed read item as input form, over a fan-out inner region (its elements are rebuilt through
+            // `IntoOwned::borrow_as` of the element type)
+            crate::section("VF:intoowned.optslice");
+            type R = SliceRegion<flatcontainer::OptionRegion<StringRegion>>;
+            let owned: Vec<Option<String>> = (0..(v[1] as usize + 1)).map(|i| if (i + v[2] as usize) % 3 == 0 { None } else { Some(string(i as u64 + v[2]).to_string()) }).collect();
+            let (mut a, mut b) = (R::default(), R::default());
+            let _ = a.push(&owned[..1].to_vec());
+            let _ = b.push(&owned[..1].to_vec());
+            let ia = a.push(&owned);
+            let item = <<R as Region>::ReadItem<'_> as IntoOwned>::borrow_as(&owned);
+            vassert!(item.into_owned() == owned, "VF:intoowned.optslice.into_owned");
+            let ib = b.push(item);
+            vassert!(ia == ib, "VF:intoowned.optslice.index");
+            vassert!(a.index(ia).into_owned() == owned && b.index(ib).into_owned() == owned, "VF:intoowned.optslice.read");
+            let used = |r: &R| -> usize { collect_heap(|cb| r.heap_size(cb)).iter().map(|p| p.0).sum() };
+            vassert!(used(&a) == used(&b), "VF:intoowned.optslice.used_bytes");
         }
         5 => {
             // region-to-region copy into a composition that relies on the inner region's dense indices
@@ -431,14 +468,14 @@ fn run_cmp(v: &[u64]) {
 
 pub fn harnesses() -> Vec<H> {
     vec![
-        H { name: "flatstack_sequence", props: &["C03"], nargs: 8, pre: pre_fs, doms: doms_fs, run: run_fs, panic_ok: false,
-            bound: "FlatStack over SliceRegion<MirrorRegion<u8>>/Vec, ConsecutiveIndexPairs<OwnedRegion<u8>>/IndexOptimized and /IndexList: 0..4 items from a 4-value pool built by copy / extend / from_iter (exact-size, filtered and chained iterators); get, iter, cloned iterator, size_hint, into_iter, reserve, clone, clear; out-of-bounds probe", kani: false },
+        H { name: "flatstack_sequence", props: &["C03", "C09"], nargs: 8, pre: pre_fs, doms: doms_fs, run: run_fs, panic_ok: false,
+            bound: "FlatStack over SliceRegion<MirrorRegion<u8>>/Vec, ConsecutiveIndexPairs<OwnedRegion<u8>>/IndexOptimized and /IndexList: 0..4 items from a 4-value pool built by copy / extend / from_iter (exact-size, filtered and chained iterators); get, iter, cloned iterator, size_hint, into_iter, reserve, clone, clone_from into destinations holding 0/1/2/4/6 unrelated items (then an identical further copy), clear; out-of-bounds probe", kani: false },
         H { name: "index_containers", props: &["C05", "C19", "C08", "C10", "C18", "C01", "C02", "C03", "C13"], nargs: 7, pre: pre_ix, doms: doms_ix, run: run_ix, panic_ok: false,
             bound: "IndexOptimized, IndexList<Vec<u32>,Vec<u64>>, Vec<usize>: all sequences of length 0..4 over the 12-value transition alphabet {0,1,2,3,4,5,6,8,u32::MAX,u32::MAX+1,2^63,usize::MAX} by push, one extend, two-three extend batches, or a push followed by extends; index/len/iter/clone/reserve/clear/with_capacity; heap bytes equal the documented cost rule; a fully strided sequence allocates nothing, also after reserve", kani: false },
         H { name: "dense_indices_free", props: &["C19"], nargs: 3, pre: pre_dense, doms: doms_dense, run: run_dense, panic_ok: false,
             bound: "FlatStack<ConsecutiveIndexPairs<StringRegion>, IndexOptimized> and FlatStack<ColumnsRegion<MirrorRegion<u8>>, IndexOptimized> with 0..40 items (optionally after an earlier life of empty or mixed items and a clear) by copy, a reserve in between and a second batch by extend (first composition): own index container reports 0 used and 0 allocated bytes", kani: false },
         H { name: "into_owned_laws", props: &["C14", "C20", "C12"], nargs: 4, pre: pre_io, doms: doms_io, run: run_io, panic_ok: false,
-            bound: "read items of SliceRegion<MirrorRegion<u8>>, ColumnsRegion<MirrorRegion<u8>>, Option<&[u8]>, Result<&[u8],&str>, SliceRegion<SliceRegion<..>>: 4 values x 5 prior clone_onto targets (empty/shorter/longer/equal/other variant) x region-backed and owned-borrowed; region-to-region push (indices compared with the canonical form on a twin), also into ConsecutiveIndexPairs<SliceRegion<..>> followed by further items", kani: false },
+            bound: "read items of SliceRegion<MirrorRegion<u8>>, ColumnsRegion<MirrorRegion<u8>>, Option<&[u8]>, Result<&[u8],&str>, SliceRegion<SliceRegion<..>>: 4 values x 5 prior clone_onto targets (empty/shorter/longer/equal/other variant) x region-backed and owned-borrowed; region-to-region push (indices compared with the canonical form on a twin), also into ConsecutiveIndexPairs<SliceRegion<..>> followed by further items; owned-borrowed read item of SliceRegion<OptionRegion<StringRegion>> versus &Vec (index, reads, used bytes)", kani: false },
         H { name: "read_item_ordering", props: &["C15"], nargs: 11, pre: pre_cmp, doms: doms_cmp, run: run_cmp, panic_ok: false,
             bound: "SliceRegion<MirrorRegion<u8>>: triples of u8 vectors of length 0..2 (native: bytes over {0,1,255}), each side region-backed from two different regions or owned-borrowed: ==, !=, <, <=, >, >=, partial_cmp, cmp, max, min equal those of the Vecs; reflexive, antisymmetric, transitive", kani: false },
     ]
